@@ -10,6 +10,7 @@ V == {NAN, NINF, -1, 0, 1, 2, 3, PINF}
 VSeq == <<NAN, NINF, -1, 0, 1, 2, 3, PINF>>
 Small == {1, 2}
 Cands == [o : {1}, h : Small, l : Small, c : Small, v : {1, 2, NAN}] \cup [o : {2}, h : {2}, l : {1}, c : {1}, v : {1, NAN}]
+           \cup [o : {1}, h : Small \cup {NAN}, l : Small \cup {NAN}, c : Small, v : {1}]     \* gaps: candles without a high / low
 
 \* plain value sequences (Sequence<ValueType>::validate): valid iff every item is finite -- HUGE stands for a finite value near
 \* the top of the range (sums of two of them overflow), so finiteness of the ITEMS is what counts
